@@ -1,7 +1,7 @@
 -------------------------------- MODULE Storage --------------------------------
 (* Persistence of broker state (properties C20, C21, C22).                                      *)
 (*                                                                                              *)
-(* PART 1 - the key/value store.  `store` is a function Key -> Value.  There is one operator    *)
+(* PART 1 (module StorageKV, extended here) - the key/value store.  `store` is a function Key -> Value.  There is one operator    *)
 (*   per storage-hook event: PutClient, DelClient, PutSub, DelSub, PutRetained, DelRetained,    *)
 (*   PutInflight, DelInflight, PutSys; each is ONE atomic write.  The key function is a         *)
 (*   parameter (`mode`): "tuple" is the injective reference key <<kind, <<id, suffix>>>>;       *)
@@ -20,111 +20,7 @@
 (*   Storage.cfg (reference: both hold) and Storage_dev.cfg (each deviation: TLC shows the      *)
 (*   loss).  The operators Load, Replay, Required* are also used by the trace specifications    *)
 (*   TraceStorage20 / TraceStorage21 which judge runs of the real broker.                       *)
-EXTENDS Integers, Sequences, FiniteSets, TLC
-
---------------------------------------------------------------------------------
-(* PART 1: key/value store                                                                     *)
-
-Kinds == {"CL", "SUB", "RET", "IFM", "SYS"}
-
-ClientKey(mode, c)    == <<"CL",  IF mode = "concat" THEN c ELSE <<c>>>>
-SubKey(mode, c, f)    == <<"SUB", IF mode = "concat" THEN c \o ":" \o f ELSE <<c, f>>>>
-RetKey(mode, t)       == <<"RET", IF mode = "concat" THEN t ELSE <<t>>>>
-InfKey(mode, c, pid)  == <<"IFM", IF mode = "concat" THEN c \o ":" \o ToString(pid) ELSE <<c, pid>>>>
-SysKey(mode)          == <<"SYS", IF mode = "concat" THEN "SYS" ELSE <<"SYS">>>>
-
-EmptyStore == <<>>
-Put(store, k, v) == [x \in DOMAIN store \cup {k} |-> IF x = k THEN v ELSE store[x]]
-Del(store, k)    == [x \in DOMAIN store \ {k} |-> store[x]]
-KeysOf(store, kind) == {k \in DOMAIN store : k[1] = kind}
-ValuesOf(store, kind) == {store[k] : k \in KeysOf(store, kind)}
-
-(* The nine write events. *)
-PutClient(store, mode, c, rec)        == Put(store, ClientKey(mode, c), rec)
-DelClient(store, mode, c)             == Del(store, ClientKey(mode, c))
-PutSub(store, mode, c, f, rec)        == Put(store, SubKey(mode, c, f), rec)
-DelSub(store, mode, c, f)             == Del(store, SubKey(mode, c, f))
-PutRetained(store, mode, t, rec)      == Put(store, RetKey(mode, t), rec)
-DelRetained(store, mode, t)           == Del(store, RetKey(mode, t))
-PutInflight(store, mode, c, pid, rec) == Put(store, InfKey(mode, c, pid), rec)
-DelInflight(store, mode, c, pid)      == Del(store, InfKey(mode, c, pid))
-PutSys(store, mode, rec)              == Put(store, SysKey(mode), rec)
-
-(* Stored records as fixed projections of the hook arguments (e.c = client, e.pk = packet). *)
-ClientRec(c, dev) ==
-    [id |-> c.id, user |-> c.user, v |-> c.v, clean |-> c.clean, sei |-> c.sei,
-     seif |-> IF "FlagsNotPersisted" \in dev THEN FALSE ELSE c.seif,
-     rpi |-> c.rpi, rpif |-> IF "FlagsNotPersisted" \in dev THEN FALSE ELSE c.rpif,
-     rri |-> c.rri, rm |-> c.rm, tam |-> c.tam, mps |-> c.mps, will |-> c.will,
-     listener |-> c.listener, remote |-> c.remote, t |-> "CL"]
-
-SubRec(c, f, code) ==
-    [c |-> c.id, f |-> f.f, q |-> code, nl |-> f.nl, rap |-> f.rap, rh |-> f.rh, ident |-> f.ident, t |-> "SUB"]
-
-MsgRec(kind, c, pk, sent, dev) ==
-    [c |-> c.id, o |-> pk.o, topic |-> pk.topic, m |-> pk.m, q |-> pk.q, r |-> pk.r, dup |-> pk.dup, ty |-> pk.ty,
-     pid |-> IF kind = "IFM" /\ "NoPacketID" \notin dev THEN pk.pid ELSE 0,
-     created |-> pk.created, sent |-> sent, mei |-> pk.mei, ct |-> pk.ct, rt |-> pk.rt, cd |-> pk.cd,
-     up |-> pk.up, sid |-> pk.sid, alias |-> 0,   \* topic aliases are connection state: never persisted
-     pf |-> pk.pf,
-     pff |-> IF "FlagsNotPersisted" \in dev THEN FALSE ELSE pk.pff, t |-> kind]
-
-ZeroSys == [id |-> "", t |-> "", version |-> "", started |-> 0, uptime |-> 0, bytes_received |-> 0,
-            clients_connected |-> 0, retained |-> 0, inflight |-> 0, subscriptions |-> 0, threads |-> 0]
-SysRec(s) == [x \in DOMAIN s |-> IF x \in {"id", "t"} THEN "SYS" ELSE s[x]]
-
-Refused(code) == code >= 128
-
-RECURSIVE PutSubs(_, _, _, _, _)
-PutSubs(store, mode, dev, e, i) ==
-    IF i > Len(e.filters) THEN store
-    ELSE LET f == e.filters[i]  code == e.codes[i]
-             s1 == IF Refused(code) /\ "StoreRefused" \notin dev THEN store
-                   ELSE PutSub(store, mode, e.c.id, f.f, SubRec(e.c, f, code))
-         IN PutSubs(s1, mode, dev, e, i + 1)
-
-RECURSIVE DelSubs(_, _, _, _)
-DelSubs(store, mode, e, i) ==
-    IF i > Len(e.filters) THEN store
-    ELSE DelSubs(DelSub(store, mode, e.c.id, e.filters[i].f), mode, e, i + 1)
-
-(* One recorded storage-hook call -> the store after it. *)
-ApplyEvent(store, mode, dev, e) ==
-    CASE e.op = "established" -> PutClient(store, mode, e.c.id, ClientRec(e.c, dev))
-      [] e.op = "will_sent"   -> PutClient(store, mode, e.c.id, ClientRec(e.c, dev))
-      [] e.op = "disconnect"  ->
-            LET s1 == IF "NoDisconnectRewrite" \in dev THEN store
-                      ELSE PutClient(store, mode, e.c.id, ClientRec(e.c, dev))
-            IN IF e.expire /\ e.c.stop # "takenover" THEN DelClient(s1, mode, e.c.id) ELSE s1
-      [] e.op = "client_expired" -> DelClient(store, mode, e.c.id)
-      [] e.op = "subscribed"   -> PutSubs(store, mode, dev, e, 1)
-      [] e.op = "unsubscribed" -> DelSubs(store, mode, e, 1)
-      [] e.op = "retain" ->
-            IF e.r = -1 THEN DelRetained(store, mode, e.pk.topic)
-            ELSE PutRetained(store, mode, e.pk.topic, MsgRec("RET", e.c, e.pk, 0, dev))
-      [] e.op = "retained_expired" -> DelRetained(store, mode, e.pk.topic)
-      [] e.op = "qos_publish"  -> PutInflight(store, mode, e.c.id, e.pk.pid, MsgRec("IFM", e.c, e.pk, e.sent, dev))
-      [] e.op = "qos_complete" -> DelInflight(store, mode, e.c.id, e.pk.pid)
-      [] e.op = "qos_dropped"  -> DelInflight(store, mode, e.c.id, e.pk.pid)
-      [] e.op = "sys_tick"     -> PutSys(store, mode, SysRec(e.sys))
-
-(* the `id` field a backend reports for a stored record (concat mode only): the file stores prefix the key,   *)
-(* redis keeps one hash per kind and stores the bare key (by design).                                       *)
-StoredID(backend, k) ==
-    IF k[1] \in {"CL", "SYS"} THEN k[2]
-    ELSE IF backend = "redis" THEN k[2] ELSE k[1] \o "_" \o k[2]
-
-WithID(store, kind, backend) ==
-    {[x \in DOMAIN store[k] \cup {"id"} |-> IF x = "id" THEN StoredID(backend, k) ELSE store[k][x]] : k \in KeysOf(store, kind)}
-
-(* what the five Stored* methods of `backend` must return for `store` (sets: order is irrelevant) *)
-ReadBack(store, backend) ==
-    [clients  |-> ValuesOf(store, "CL"),
-     subs     |-> WithID(store, "SUB", backend),
-     retained |-> WithID(store, "RET", backend),
-     inflight |-> WithID(store, "IFM", backend),
-     sys      |-> IF KeysOf(store, "SYS") = {} THEN {ZeroSys} ELSE ValuesOf(store, "SYS")]
-
+EXTENDS StorageKV
 
 --------------------------------------------------------------------------------
 (* PART 2: the persistence protocol                                                             *)
